@@ -127,8 +127,98 @@ func invWrites(b *ast.BlockStmt, rn string) []string {
 	return out
 }
 
+// ---- shapes of the Pdf / Cdf methods (round 6) ----------------------------------------------------------
+// A method `func (d *T) Pdf(r Scalar, x ...) error` is an exp-wrapper of M when its body is exactly
+//     if err := d.M(r, x...); err != nil { return err }
+//     r.Exp(r)
+//     return nil
+// with the method's own parameters passed on in order.  The table of all Pdf / Cdf methods of the three packages is
+// re-generated from the source on every run as a Coq definition (gen_shapes.v) and compared inside Coq with the table
+// the model is proved about (coq/C14/CorrS.v: eval f Pdf = pdf_of (eval f LogPdf), ...).
+type invShape struct {
+	Pkg, Type, Method, Shape string
+}
+
+func invShapeOf(fd *ast.FuncDecl) string {
+	if fd.Body == nil || fd.Recv == nil || len(fd.Recv.List[0].Names) == 0 {
+		return "SOther"
+	}
+	rn := fd.Recv.List[0].Names[0].Name
+	var params []string
+	for _, f := range fd.Type.Params.List {
+		for _, n := range f.Names {
+			params = append(params, n.Name)
+		}
+	}
+	st := fd.Body.List
+	if len(st) != 3 || len(params) < 2 {
+		return "SOther"
+	}
+	ifs, ok := st[0].(*ast.IfStmt)
+	if !ok || ifs.Else != nil || ifs.Init == nil {
+		return "SOther"
+	}
+	as, ok := ifs.Init.(*ast.AssignStmt)
+	if !ok || as.Tok != token.DEFINE || len(as.Lhs) != 1 || len(as.Rhs) != 1 || invExpr(as.Lhs[0]) != "err" {
+		return "SOther"
+	}
+	call, ok := as.Rhs[0].(*ast.CallExpr)
+	if !ok {
+		return "SOther"
+	}
+	sel, ok := call.Fun.(*ast.SelectorExpr)
+	if !ok || invExpr(sel.X) != rn || len(call.Args) != len(params) {
+		return "SOther"
+	}
+	for i, a := range call.Args {
+		if invExpr(a) != params[i] {
+			return "SOther"
+		}
+	}
+	if be, ok := ifs.Cond.(*ast.BinaryExpr); !ok || be.Op != token.NEQ || invExpr(be.X) != "err" || invExpr(be.Y) != "nil" {
+		return "SOther"
+	}
+	if len(ifs.Body.List) != 1 {
+		return "SOther"
+	}
+	if rs, ok := ifs.Body.List[0].(*ast.ReturnStmt); !ok || len(rs.Results) != 1 || invExpr(rs.Results[0]) != "err" {
+		return "SOther"
+	}
+	es, ok := st[1].(*ast.ExprStmt)
+	if !ok {
+		return "SOther"
+	}
+	ec, ok := es.X.(*ast.CallExpr)
+	if !ok || invExpr(ec.Fun) != params[0]+".Exp" || len(ec.Args) != 1 || invExpr(ec.Args[0]) != params[0] {
+		return "SOther"
+	}
+	if rs, ok := st[2].(*ast.ReturnStmt); !ok || len(rs.Results) != 1 || invExpr(rs.Results[0]) != "nil" {
+		return "SOther"
+	}
+	return "SExpOf \"" + sel.Sel.Name + "\""
+}
+
+func writeShapes(outdir string, shapes []invShape) {
+	var sb strings.Builder
+	sb.WriteString("(* generated from the library source by harness/c14 (inventory.go) on every run: the shape of every Pdf / Cdf method *)\n")
+	sb.WriteString("From Coq Require Import String List. Import ListNotations.\nFrom ADV Require Import C14.CorrS.\nOpen Scope string_scope.\n")
+	sb.WriteString("Definition gen_shapes : list (string * string * string * shape) := [\n")
+	for i, s := range shapes {
+		sep := ";"
+		if i == len(shapes)-1 {
+			sep = ""
+		}
+		sb.WriteString(fmt.Sprintf("  (\"%s\", \"%s\", \"%s\", %s)%s\n", s.Pkg, s.Type, s.Method, s.Shape, sep))
+	}
+	sb.WriteString("].\nGoal True.\ntryif (assert (gen_shapes = model_shapes) by (vm_compute; reflexivity)) then idtac else idtac \"MISMATCH 0%nat\".\nexact I. Qed.\n")
+	os.WriteFile(filepath.Join(outdir, "gen_shapes.v"), []byte(sb.String()), 0644)
+	b, _ := json.MarshalIndent(shapes, "", " ")
+	os.WriteFile(filepath.Join(outdir, "gen_shapes.json"), b, 0644)
+}
+
 func inventory(root, outdir string) {
 	var all []invType
+	var shapes []invShape
 	for _, pkg := range []string{"scalarDistribution", "vectorDistribution", "matrixDistribution"} {
 		fset := token.NewFileSet()
 		pkgs, err := parser.ParseDir(fset, filepath.Join(root, "statistics", pkg),
@@ -187,6 +277,9 @@ func inventory(root, outdir string) {
 					if t == nil || len(fd.Recv.List[0].Names) == 0 {
 						continue
 					}
+					if fd.Name.Name == "Pdf" || fd.Name.Name == "Cdf" {
+						shapes = append(shapes, invShape{pkg, t.Type, fd.Name.Name, invShapeOf(fd)})
+					}
 					w := invWrites(fd.Body, fd.Recv.List[0].Names[0].Name)
 					if len(w) == 0 {
 						continue
@@ -208,7 +301,18 @@ func inventory(root, outdir string) {
 			}
 		}
 	}
+	sort.Slice(shapes, func(i, j int) bool {
+		a, b := shapes[i], shapes[j]
+		if a.Pkg != b.Pkg {
+			return a.Pkg < b.Pkg
+		}
+		if a.Type != b.Type {
+			return a.Type < b.Type
+		}
+		return a.Method < b.Method
+	})
 	b, _ := json.MarshalIndent(map[string]interface{}{"types": all}, "", " ")
 	os.MkdirAll(outdir, 0755)
+	writeShapes(outdir, shapes)
 	os.WriteFile(filepath.Join(outdir, "inventory.json"), b, 0644)
 }
